@@ -16,6 +16,7 @@ warnings.simplefilter("ignore", DeprecationWarning)
 TASK_BOUND = 32  # absolute ceiling for any single run; independence from the number of cycles is checked separately (long clause)
 LATENCIES = [0.0, 0.5, 3.0]
 LIFETIMES = [None, 0.0, 0.3, 2.0, 7.0, 30.0]
+LIFETIMES_FAULTY = [-0.3, -2.0]  # negative: the connection is lost after |t| s and closing the dead transport raises OSError
 
 
 def trace_text(world, limit=40):
@@ -93,7 +94,7 @@ def judge(out, script, what):
 
 
 def uninjected(script, horizon=None):
-    need = sum(s[1] for s in script) + sum((s[2] or 0) for s in script if len(s) > 2) + 80 + 6 * len(script)
+    need = sum(s[1] for s in script) + sum(abs(s[2] or 0) for s in script if len(s) > 2) + 80 + 6 * len(script)
     return vtloop.run_scenario(script, horizon=horizon or need)
 
 
@@ -144,6 +145,7 @@ def scenario_oracle(case) -> Info:
 step_st = st.one_of(
     st.tuples(st.just("fail"), st.sampled_from(LATENCIES), st.none()),
     st.tuples(st.just("ok"), st.sampled_from(LATENCIES), st.sampled_from(LIFETIMES[1:])),
+    st.tuples(st.just("ok"), st.sampled_from(LATENCIES), st.sampled_from(LIFETIMES[1:] + LIFETIMES_FAULTY)),
 )
 scenario_st = st.tuples(st.lists(step_st, min_size=0, max_size=5), st.lists(st.integers(0, 999), max_size=3))
 
@@ -151,7 +153,7 @@ scenario_st = st.tuples(st.lists(step_st, min_size=0, max_size=5), st.lists(st.i
 # ---- full grid (thorough) / reduced grid (quick) -----------------------------------------------------------------------------
 
 _STEPS = [("fail", lat, None) for lat in LATENCIES] + [("ok", lat, life) for lat in LATENCIES for life in LIFETIMES[1:]]
-_STEPS_QUICK = [("fail", 0.0, None), ("fail", 3.0, None), ("ok", 0.0, 0.0), ("ok", 0.5, 2.0), ("ok", 3.0, 7.0)]
+_STEPS_QUICK = [("fail", 0.0, None), ("fail", 3.0, None), ("ok", 0.0, 0.0), ("ok", 0.5, 2.0), ("ok", 3.0, 7.0), ("ok", 0.0, -0.3)]
 
 
 def _grid(tier):
@@ -221,7 +223,7 @@ def build() -> Check:
         level="fault_enumeration",
         rule=(
             "Scenario = per-attempt script for up to 5 attempts, each fail|ok x latency {0, 0.5, 3 s} x (for ok) connection lifetime {lost after "
-            "0, 0.3, 2, 7, 30 s}; afterwards attempts succeed and stay up. For every scenario the harness runs, on a deterministic virtual-time "
+            "0, 0.3, 2, 7, 30 s; or lost and close() on the dead transport raises OSError}; afterwards attempts succeed and stay up. For every scenario the harness runs, on a deterministic virtual-time "
             "event loop: the uninjected run; one run with close() injected before EVERY event-loop iteration of the uninjected run (every "
             "await point: back-off sleep, pending attempt, connected, between loss and reconnect); and runs with close() at virtual times "
             "strictly inside every sleep/latency interval (midpoint and 99.9 %), at exactly every event time of the uninjected run (timer ties) plus drawn times; each injected run is drained for 200 s "
